@@ -7,6 +7,7 @@ import json
 import os
 import random
 
+import structure
 from common import (Report, ToolError, check_action_coverage, log, run_cases, run_tlc, stable_hash, std_main)
 import tracecheck
 
@@ -118,6 +119,8 @@ def runner(rep, tier, seed, replay):
                  "env": {"CICADA_VERIF_TRACE": "@SCRATCH@/vh/trace.ndjson"}}
             cases.append(c)
             meta.append((prog, entry, line, exp, status, conc))
+    # the same lines as the head of `if` / `else if` / `while` (separate code path: scripting.rs::run_exp_test_br)
+    structure.check_heads(rep, [{"entry": "c", "text": m[2]} for m in meta if m[1] == "c"], random.Random(seed), 150 if tier == "quick" else 1500, "C03")
     results = tracecheck.run_cases_with_trace(cases)
     distinct = set()
     ntraces = 0
